@@ -465,7 +465,12 @@ def seconds_to_midi_ticks(
         will be an integer. If the output was a numpy array, the output
         will be a numpy array with dtype int.
     """
-    midi_ticks = np.round(1e6 * ppq * time_in_seconds / mpq)
+    # double precision whatever the input: a float32 array (the dtype of the time
+    # columns of partitura's own note arrays) would be multiplied in single precision
+    # and could end up one tick away from the result for the same value as a float
+    midi_ticks = np.round(
+        1e6 * ppq * np.asarray(time_in_seconds, dtype=float) / mpq
+    )
 
     if isinstance(time_in_seconds, np.ndarray):
         return midi_ticks.astype(int)
